@@ -322,6 +322,8 @@ async def stalled_log_scenario(out, args, wd, oport):
 
 
 async def main(args):
+    from . import lib as _lib
+    _lib.UNIQUE_SRC = True   # records are joined with connections by source port
     out = Out("C13", "c13", "configs {timeouts absent, idle 0/udp 0, idle 2/udp 4, idle 4/udp 2} x listener kinds {http, socks, reverse-tcp, reverse-udp, socks-udp, CONNECT-over-QUIC} x traffic patterns {silent, trickle just under the period, burst then silence} x io modes; /api/live wiring check and wall-clock close window. distinct = distinct (listener kind, pattern, config, io mode)")
     rng = random.Random(args.seed)
     origin = await TcpOrigin(echo_handler, host="127.0.0.1").start()
